@@ -105,7 +105,7 @@ def direct_effects(fi, model):
 def receiver_effects(model):
     """qualname -> set of receiver attributes the method may write (fixpoint over self-calls; an assignment to a
     property with a setter counts as the setter's effects)."""
-    key = id(model)
+    key = model.serial
     if key in _cache:
         return _cache[key]
     eff = {}
